@@ -284,3 +284,7 @@ def run(P: Program, R: Report, tier: str) -> None:
     # get_next_track_id() / has_track_id_at_time() / get_track_neighbors() as reads; a query that moves a counter or fills a
     # registry changes state BEFORE the edit has validated its arguments, and a refusal then leaves that change behind.
     queries_are_pure(P, R, "R11.4")
+    # ---- R11.5 a lookup that is handed out is a plain dict: reading a missing id must not insert it
+    from .memo import no_autoinsert_lookup
+
+    no_autoinsert_lookup(P, R, "R11.5")
